@@ -186,7 +186,7 @@ def big_sessions(prop, tier, seed, repo):
             continue
     # hand-built games beyond the exact domain
     # (a) a corridor of ascending states: the value travels one state per sweep (> 1000 sweeps)
-    ncor = 1100 if tier == "quick" else 2600
+    ncor = 1300
     owners = ["Probabilistic", "Player 1", "Player 2"]
     cor = {"rewards": [0] * (ncor + 2), "players": ["Probabilistic"] + [owners[i % 3] for i in range(1, ncor - 1)]
            + ["Probabilistic", "Probabilistic", "Probabilistic"],
@@ -194,7 +194,8 @@ def big_sessions(prop, tier, seed, repo):
            + [([(1, i + 1)] if owners[i % 3] == "Probabilistic" else [("f", i + 1)]) for i in range(1, ncor - 1)]
            + [[(1, ncor)]] + [[(1, ncor)], [(1, ncor + 1)]],
            "final_states": [ncor]}
-    if prop in ("C01", "C02", "C06"):
+    # (TLC's graph fixed points take one round per state of such a chain: thorough only)
+    if prop in ("C01", "C02", "C06") and tier != "quick":
         named.append(("corridor%d" % ncor, cor))
     # (b) a value of 1e-10 (two hops of 1e-5) next to dead states: positive, hence live
     for o in ("Player 1", "Player 2", "Probabilistic"):
@@ -236,6 +237,20 @@ def big_sessions(prop, tier, seed, repo):
                            {"op": "snap", "d": 1}]
         sessions.append(s)
     return sessions
+
+
+def threshold_sessions(gens):
+    """C01 / C04 quantify over the solver threshold: the public Solver API with thresholds
+    10^-4 and 10^-8 (tolerances and the rounding grain of the strategies scale with it)."""
+    out = []
+    for i, d in enumerate(gens):
+        if d["fam"] in ("hist", "edit", "perm", "slow") or i % 4 != 0:
+            continue
+        for digits, eps in ((4, 100000), (8, 10)):
+            out.append({"fam": d["fam"], "exact": True, "descs": [d["g"]], "eps": eps,
+                        "script": [{"op": "call", "d": 1, "prune": pr, "mode": "cond", "obj": "new", "digits": digits}
+                                   for pr in (True, False)]})
+    return out
 
 
 def classify(prop, clause, known_open):
@@ -342,6 +357,10 @@ def run(prop, tier, seed, repo):
         import time
         t1 = time.time()
         sessions = build_sessions(gens)
+        if prop in ("C01", "C04"):
+            for t in threshold_sessions(gens):
+                t["tid"] = len(sessions) + 1
+                sessions.append(t)
         if prop in BIG_PROPS:
             for b in big_sessions(prop, tier, seed, repo):
                 b["tid"] = len(sessions) + 1
